@@ -1618,7 +1618,10 @@ where
 
                         // If we have just a sync message left (maybe after omitting sending some messages to the server) no need to send it to the server,
                         // unless the server is waiting for it: an extended protocol COPY FROM STDIN has just ended.
-                        if *self.buffer.first().unwrap() == b'S' && !server.awaiting_sync() {
+                        let completes_copy =
+                            *self.buffer.first().unwrap() == b'S' && server.awaiting_sync();
+
+                        if *self.buffer.first().unwrap() == b'S' && !completes_copy {
                             should_send_to_server = false;
                             // queue up a ready for query message to send to the client, respecting the transaction state of the server
                             self.response_message_queue_buffer
@@ -1643,7 +1646,25 @@ where
                             self.response_message_queue_buffer.clear();
                         }
 
-                        if should_send_to_server {
+                        if completes_copy {
+                            // Only the ReadyForQuery of a statement that has been counted already.
+                            self.send_server_message(server, &self.buffer, &address, &pool)
+                                .await?;
+
+                            let response = self
+                                .receive_server_message(
+                                    server,
+                                    &address,
+                                    &pool,
+                                    &self.stats.clone(),
+                                )
+                                .await?;
+
+                            if let Err(err) = write_all_flush(&mut self.write, &response).await {
+                                server.mark_bad(err.to_string().as_str());
+                                return Err(err);
+                            }
+                        } else if should_send_to_server {
                             self.send_and_receive_loop(
                                 code,
                                 None,
@@ -1666,10 +1687,14 @@ where
                         server.close_evicted_prepared_statements().await?;
 
                         if !server.in_transaction() {
-                            self.stats.transaction();
-                            server
-                                .stats()
-                                .transaction(self.server_parameters.get_application_name());
+                            // A COPY ... FROM STDIN that has only just started is counted
+                            // when it finishes.
+                            if !server.in_copy_mode() {
+                                self.stats.transaction();
+                                server
+                                    .stats()
+                                    .transaction(self.server_parameters.get_application_name());
+                            }
 
                             // Release server back to the pool if we are in transaction mode.
                             // If we are in session mode, we keep the server until the client disconnects.
